@@ -102,7 +102,10 @@ def run(prop, tier, seed, replay=None):
              "for all sixteen forms; dot products of length 0,1,2,3,7; init from polynomials of every degree 0..2k+2 with leading coefficient 1 and p-1, stored leading zeros, the zero polynomial and "
              "multiples of the defining polynomial, for every field with k >= 2; Extension<> over prime and non-prime base fields (special pool pairs, random triples, all pairs for tiny fields); "
              "GFqKronecker histories: every sequence of setShift/setMaxn of length <= 2 over a ten-letter alphabet and sampled longer ones, then init from 1, 2, maxn-1, maxn accumulated products "
-             "(all-(p-1) operands, random, mixed); a line is non-trivial when an operand is outside {0,1}",
+             "(all-(p-1) operands, random, mixed); array-by-scalar forms with the scalar running over the code values 0, 1 (generator), 2, q-2, one, mOne, mOne+1 on the "
+             "fixed array (0, 1, one, mOne, 2); fields whose modulus comes from ixe_irreducible2 (degrees 2,3,4,6,8,9); Extension meta data (cardinality, characteristic, exponent, order) of "
+             "towers over prime and non-prime bases of the four GFqDom storage types; the modulus chosen by every Extension object re-checked by Ben-Or's test; GFqExt q-adic dot products of "
+             "1, 2, 3, maxdot/2, maxdot-1, maxdot terms for int32_t and int64_t storage; a line is non-trivial when an operand is outside {0,1}",
         extra={"lines_by_kind": kinds, "field_objects_with_tables_validated": fields},
         nontrivial=lambda l: l.split(" ")[0] != "fld" and any(t not in ("0", "1") for t in l.split(" = ")[0].split(" ")[7:]))
     V.finish()
